@@ -1,1 +1,3 @@
+pub mod c03;
 pub mod c04;
+pub mod c20;
